@@ -118,8 +118,10 @@ static void run(const int *ops, int len)
 			m_add(&m, k, ctr);
 			if (t->size != oldsize) resizes++;
 		} else if (op == 1) {
-			int r = lh_table_delete(t, KEYS[k]); int present = m_find(&m, k) >= 0;
+			struct lh_entry *e = lh_table_lookup_entry(t, KEYS[k]); int r = lh_table_delete(t, KEYS[k]); int present = m_find(&m, k) >= 0;
 			if ((r == 0) != present) { bad = "delete-return"; goto fail; }
+			/* deleting the same ENTRY a second time: documented to report "not found" (-1) and, of course, to change nothing */
+			if (e && r == 0) { int n0 = lh_table_length(t); if (lh_table_delete_entry(t, e) != -1) { bad = "stale-entry-delete-return"; goto fail; } if (lh_table_length(t) != n0) { bad = "stale-entry-delete-changed-length"; goto fail; } }
 			m_del(&m, k);
 		} else {
 			/* lookup only: the check below does it for every key */
